@@ -1,4 +1,8 @@
 open Drv_common
+module M = struct
+  include Drv_common.M
+  include TransferFee
+end
 let suite_prefee (line : string) : string =
   let t = toks_of_line line in
   let bps = nz t in let maxfee = nz t in let post = nz t in
